@@ -145,6 +145,29 @@ class Check(PropertyCheck):
                                 f"changed: was `{integ0[:160]}` now `{graph_integrity(g0)[:160]}`"))
                     break
         if line == "solved":
+            # the solved graph's definition: job chains with source/sink (conjunctive), then one disjunctive edge per pair
+            # of operations that are consecutive on a machine in the schedule (DiGraph: the later insertion decides the type)
+            nodes, edges = parse_graph(out)
+            jobs = impl.jobs
+            ops = [(j, p) for j, job in enumerate(jobs) for p in range(len(job))]
+            oid = {r: i for i, r in enumerate(ops)}
+            S, T = len(ops), len(ops) + 1
+            want = {}
+            for j, job in enumerate(jobs):
+                ids = [oid[(j, p)] for p in range(len(job))]
+                for a, b in zip(ids, ids[1:]):
+                    want[(a, b)] = "c"
+                if ids:
+                    want[(S, ids[0])] = "c"
+                    want[(ids[-1], T)] = "c"
+            for ms in impl.dispatcher.schedule.schedule:
+                for x, y in zip(ms, ms[1:]):
+                    want[(x.operation.operation_id, y.operation.operation_id)] = "d"
+            if edges != want:
+                extra = sorted(set(edges) - set(want))[:3]
+                missing = sorted(set(want) - set(edges))[:3]
+                wrong = sorted(k for k in edges if k in want and edges[k] != want[k])[:3]
+                res.append(("edges:solved", f"solved graph: extra edges {extra}, missing {missing}, wrongly typed {wrong}"))
             import networkx as nx
             g = impl.last_graph
             sched = impl.dispatcher.schedule
